@@ -96,6 +96,13 @@ func (vc *VC) evalTerm(fr *Frame, c *Clause, st, old *State, extra map[string]TV
 	return env.scalar(tv)
 }
 
+func fnPkgPath(fn *ssa.Function) string {
+	if p := fnPkg(fn); p != nil {
+		return p.Path()
+	}
+	return ""
+}
+
 func fnPkg(fn *ssa.Function) *types.Package {
 	for f := fn; f != nil; f = f.Parent() {
 		if f.Pkg != nil {
@@ -394,7 +401,7 @@ func (env *SpecEnv) evalQuant(e *SExpr) TV {
 	for _, p := range e.Pats {
 		var ps []*Term
 		for _, x := range p {
-			ps = append(ps, sub.scalar(sub.eval(x)))
+			ps = append(ps, patternTerm(sub.scalar(sub.eval(x))))
 		}
 		pats = append(pats, ps)
 	}
@@ -403,6 +410,31 @@ func (env *SpecEnv) evalQuant(e *SExpr) TV {
 		return TV{&VS{mkForall(vars, mkImplies(g, body), pats...)}, boolT}
 	}
 	return TV{&VS{mkExists(vars, mkAnd(g, body))}, boolT}
+}
+
+// patternTerm strips logical connectives from a trigger term (SMT patterns must be applications of
+// non-logical symbols): the last non-logical sub-term is kept.
+func patternTerm(t *Term) *Term {
+	for t.Kind == TApp {
+		switch t.Op {
+		case "and", "or", "not", "=>", "=", "ite", "<", "<=", ">", ">=":
+			var next *Term
+			for i := len(t.Args) - 1; i >= 0; i-- {
+				a := t.Args[i]
+				if a.Kind == TApp {
+					next = a
+					break
+				}
+			}
+			if next == nil {
+				return t
+			}
+			t = next
+			continue
+		}
+		break
+	}
+	return t
 }
 
 func (env *SpecEnv) evalBinary(e *SExpr) TV {
@@ -779,7 +811,7 @@ func (env *SpecEnv) evalCall(e *SExpr) TV {
 			if env.old == nil {
 				env.fail("fresh() needs an old state")
 			}
-			return TV{&VS{mkAnd(mkNeq(r, tNull), mkNot(mkSelect(vc.allocArr(env.old), r)))}, boolT}
+			return TV{&VS{mkAnd(mkNeq(r, tNull), mkNot(vc.allocatedIn(env.old, r)))}, boolT}
 		case "allocated":
 			x := env.eval(e.Args[0])
 			var r *Term
@@ -788,7 +820,7 @@ func (env *SpecEnv) evalCall(e *SExpr) TV {
 			} else {
 				r = env.scalar(x)
 			}
-			return TV{&VS{mkSelect(vc.allocArr(env.st), r)}, boolT}
+			return TV{&VS{vc.allocatedIn(env.st, r)}, boolT}
 		case "base":
 			x := env.eval(e.Args[0])
 			if s, ok := x.V.(*VSlice); ok {
@@ -834,7 +866,7 @@ func (env *SpecEnv) evalCall(e *SExpr) TV {
 				arr = env.scalar(x)
 				off = i
 			}
-			return TV{&VS{packBytes(arr, off, n)}, mathInt}
+			return TV{&VS{packBytes(arr, off, n)}, map[int]types.Type{8: types.Typ[types.Uint64], 4: types.Typ[types.Uint32], 2: types.Typ[types.Uint16]}[n]}
 		case "bstr":
 			x := env.eval(e.Args[0])
 			s, ok := x.V.(*VSlice)
@@ -916,6 +948,11 @@ func (env *SpecEnv) evalCall(e *SExpr) TV {
 				}
 				t := env.scalar(x)
 				if t.Sort == SInt && leafSort(tn.Type()) == SInt {
+					if x.T != nil && !untyped(x.T) {
+						if _, _, ok := intRange(x.T); ok {
+							return TV{&VS{convInt(t, x.T, tn.Type())}, tn.Type()}
+						}
+					}
 					return TV{&VS{wrapTo(t, tn.Type())}, tn.Type()}
 				}
 				if t.Sort == SInt && leafSort(tn.Type()) == SReal {
@@ -1033,6 +1070,21 @@ func (env *SpecEnv) callPure(pf *PureFunc, recv *TV, args []*SExpr) TV {
 		sub.vars[p.Name] = TV{a.V, pt}
 	}
 	rt := sub.resolveType(pf.Result)
+	if pf.Opaque && vc.root != nil && fnPkgPath(vc.root) != pf.PkgPath {
+		// abstract use outside the declaring package: a ghost, heap-dependent function stored per receiver
+		// (family P$pkg.T.name : Ref -> params -> result); its frame is maintained by framePreds at every
+		// heap change (unchanged for receivers whose declared reads footprint is disjoint from the change)
+		if recv == nil {
+			env.fail("opaque function %s needs a receiver", pf.Name)
+		}
+		key, srt := vc.predFamily(pf, sub)
+		t := mkSelect(vc.famGet(env.st, key, srt), env.scalar(*recv))
+		for _, p := range pf.Params {
+			t = mkSelect(t, sub.scalar(sub.vars[p.Name]))
+		}
+		vc.note("opaque function used abstractly (ghost heap-dependent function with frame axioms over its reads clause): " + shortPkg(pf.PkgPath) + "." + recvTypeName(pf.RecvType) + "." + pf.Name)
+		return TV{&VS{t}, rt}
+	}
 	if pf.Body == nil {
 		// uninterpreted function of its scalar arguments
 		var as []*Term
